@@ -132,8 +132,6 @@ def main(ctx):
         ctx.log(msg)
     else:
         ctx.log("harness build failed before table regeneration; keeping the committed GenOps.v")
-    hydrob.standard_check_with(ctx, spec, lambda: {
-        "explanation": EXPLANATION,
-        "programs": len([1 for k in spec.info]),
-        "exhaustive": False,
-    })
+    spec.explanation = EXPLANATION
+    spec.coverage_extra = lambda cases, results: {"programs": len(spec.info), "exhaustive": False}
+    vlib.standard_check(ctx, spec)
